@@ -480,6 +480,12 @@ func (x *exec) valEq(st *State, a, b Val, t types.Type) Term {
 		}
 	case *SliceV:
 		if bv, ok := b.(*SliceV); ok { // only comparison with nil is legal in Go
+			if bv.Arr.S == "0" {
+				return Eq(av.Arr, Zero)
+			}
+			if av.Arr.S == "0" {
+				return Eq(bv.Arr, Zero)
+			}
 			return And(Eq(av.Arr, bv.Arr), Eq(av.Len, bv.Len))
 		}
 	case *StructV:
@@ -883,13 +889,42 @@ func (x *exec) slice(st *State, ins *ssa.Slice) {
 		st.assume(Eq(app(SInt, "strlen", r), Sub(h, l)))
 		st.assume(Le(Zero, r))
 		fr.env[ins] = r
-	case *PtrV: // pointer to array: opaque slice of the right length
+	case *PtrV: // pointer to array
 		at, ok := deref(ins.X.Type()).Underlying().(*types.Array)
 		if !ok {
 			panic(unsupported("Slice of pointer to non-array"))
 		}
 		if lo != nil || hi != nil {
 			panic(unsupported("partial slice of an array"))
+		}
+		if b.Cell != nil {
+			// a local array (composite literal, varargs): its current elements are copied into a
+			// fresh backing array (writes through the array pointer after this point are not
+			// reflected: go/ssa emits the element stores before the slice instruction)
+			if av, isArr := x.load(st, b).(*ArrayV); isArr {
+				arr := x.allocRef(st)
+				et := at.Elem()
+				ok := true
+				func() {
+					defer func() {
+						if r := recover(); r != nil {
+							if _, isU := r.(unsupportedErr); isU {
+								ok = false
+								return
+							}
+							panic(r)
+						}
+					}()
+					for i, ev := range av.E {
+						x.store(st, &PtrV{Obj: arr, Elem: true, Idx: IntLit(int64(i)), Root: et}, ev)
+					}
+				}()
+				if ok {
+					n := IntLit(at.Len())
+					fr.env[ins] = &SliceV{Arr: arr, Off: Zero, Len: n, Cap: n}
+					return
+				}
+			}
 		}
 		sv := x.havocLike(st, &SliceV{}).(*SliceV)
 		st.assume(Eq(sv.Len, IntLit(at.Len())))
